@@ -343,7 +343,18 @@ def validate_runs(res, prop, path, label, by_name, is_known=None, max_rounds=40)
 
 
 def corrupt(prop, recs):
-    """Negative control: one field of one recorded run changed."""
+    """Negative control: one field of one recorded run changed (first candidate)."""
+    return next(corrupt_candidates(prop, recs), None)
+
+
+def corrupt_candidates(prop, recs):
+    for rec in recs:
+        r = _corrupt_one(prop, [rec])
+        if r is not None:
+            yield r
+
+
+def _corrupt_one(prop, recs):
     for rec in recs:
         r = copy.deepcopy(rec)
         rows = [i for i, ln in enumerate(r["lines"]) if ln.get("t") == "row"]
@@ -365,8 +376,12 @@ def corrupt(prop, recs):
             # swap two adjacent sibling rows that are strictly ordered by name
             for a, b in zip(rows, rows[1:]):
                 la, lb = r["lines"][a], r["lines"][b]
+                after = r["lines"][b + 1] if b + 1 < len(r["lines"]) else None
+                leaf_pair = b == a + 1 and (after is None or after.get("t") != "row"
+                                            or len(after["prefix"]) <= len(lb["prefix"]))
                 if la["prefix"] == lb["prefix"] and la["branch"] == "tee" and lb["branch"] in ("tee", "corner") \
-                        and la["name"].isalpha() and lb["name"].isalpha() and la["name"] != lb["name"] \
+                        and la["name"].isalpha() and lb["name"].isalpha() \
+                        and la["name"].lower() != lb["name"].lower() and leaf_pair \
                         and r["config"]["sort_key"] == "name":
                     la["name"], lb["name"] = lb["name"], la["name"]
                     la["name_cp"], lb["name_cp"] = lb["name_cp"], la["name_cp"]
@@ -466,14 +481,21 @@ def run(prop, tier, seed):
             res.prop = prop
 
     if not res.violations:
-        bad = corrupt(prop, recs)
-        if bad is None:
-            raise V.ToolError("negative control: no suitable run")
+        # one corrupted field of a recorded run must be reported by the same TLC command; the
+        # corruption is syntactic, so a candidate may happen to be another permitted output
+        # (e.g. two rows the order leaves open): a few candidates are tried
         p = os.path.join(V.WORK, f"{prop}.negctl.ndjson")
-        with open(p, "w") as f:
-            f.write(json.dumps(bad) + "\n")
-        r = V.tlc_trace("RunnerTrace", f"RunnerTrace_{prop}", p)
-        res.extra["negative_control"] = {"got": r.get("violated"), "rules": V.bad_rules(r["out"])}
+        tried, r = 0, {}
+        for bad in corrupt_candidates(prop, recs):
+            tried += 1
+            with open(p, "w") as f:
+                f.write(json.dumps(bad) + "\n")
+            r = V.tlc_trace("RunnerTrace", f"RunnerTrace_{prop}", p)
+            if r.get("violated") == f"{prop}Holds" or tried >= 6:
+                break
+        if tried == 0:
+            raise V.ToolError("negative control: no suitable run")
+        res.extra["negative_control"] = {"got": r.get("violated"), "rules": V.bad_rules(r["out"]), "candidates_tried": tried}
         if r.get("violated") != f"{prop}Holds":
             raise V.ToolError(f"negative control not caught ({r.get('violated')})")
     return res.finish()
